@@ -309,7 +309,9 @@ def check_tree(rep, pid, xyz, notes=None):
         rep.v("_SubsetNodesFeatures.get_radial_distance", "radial-distance", spec, got, (want["tip_radial_distance"][1], want["furcation_radial_distance"][1]))
 
     # -- Sholl
-    ok, sh = rep.guarded("Sholl.__init__", spec, lambda: Sholl(t))
+    # A one-node tree has no segment; Sholl(t) documents it as "invalid tree" (ValueError).  The property's
+    # Sholl clause is about intersection counts of segments, so single-node trees are outside its scope here.
+    ok, sh = rep.guarded("Sholl.__init__", spec, lambda: Sholl(t)) if n >= 2 else (False, None)
     if ok:
         ok, got = rep.guarded("Sholl.get", spec, lambda: (sh.get(steps=radii), [sh.intersect(x) for x in radii]))
         if ok and not (list(map(int, got[0])) == want["sholl"][1] and list(map(int, got[1])) == want["sholl"][1]):
@@ -403,6 +405,8 @@ def check_extractor(rep, t, o, want, radii, spec):
             continue
         kw = dict(FEATURE_KWARGS.get(name, {}))
         if name == "sholl":
+            if o.n < 2:
+                continue
             kw["steps"] = radii
         ok, got = rep.guarded("extract_feature.get", dict(spec, feature=name), lambda: fe.get(name, **kw))
         kind, w = want[name]
@@ -440,6 +444,8 @@ def check_population(rep, tables):
             continue
         kw = dict(FEATURE_KWARGS.get(name, {}))
         if name == "sholl":
+            if any(o.n < 2 for o in oracles):
+                continue
             kw["steps"] = radii
         sp = dict(spec, feature=name)
         ok, got = rep.guarded("PopulationFeatureExtractor.get", sp, lambda: fe.get(name, **kw))
@@ -455,6 +461,8 @@ def check_population(rep, tables):
             if not (close_kind(kind, got[k, :len(vals)], vals) and np.all(got[k, len(vals):] == 0)):
                 rep.v("PopulationFeatureExtractor.get", "population-zero-padded", dict(sp, row=k), got[k], dict(values=vals, padded_to=lmax))
     # default Sholl of a population: common radii k*rmax/21 of the largest tree
+    if any(o.n < 2 for o in oracles):
+        return
     ok, got = rep.guarded("PopulationFeatureExtractor.get_sholl", dict(spec, feature="sholl"), lambda: np.asarray(fe.get("sholl")))
     if ok and rmax > 0:
         if got.shape != (len(trees), 20):
